@@ -497,3 +497,143 @@ func h2SlowPermissionHandler(t *testing.T, vt *vhT) {
 		vt.Flush()
 	}
 }
+
+// h2StaleStreamTeardown (C06, C04; monitor only): a stream client's connection dies while the server is still busy with a request
+// from it; the client comes back from the same address and port and makes a new allocation over its new connection.  When the
+// old connection's goroutine finally notices the end of its stream, its teardown must not take the NEW allocation with it.
+func h2StaleStreamTeardown(t *testing.T, vt *vhT) {
+	synctest.Test(t, func(t *testing.T) {
+		vt.Note("stale-stream-teardown scenario")
+		lis := []*h2Listener{{stream: true, ip: net.ParseIP("10.0.0.1").To4()}}
+		w := newH2World(vt, ServerConfig{}, lis, true, false)
+		h := &h2Hist{vt: vt, w: w, lastTid: map[string]int{}, owner: map[string]string{}}
+		nonce, _ := w.srv.nonceHash.Generate()
+		cred := func(u string) *h2Cred {
+			return &h2Cred{mi: true, nonce: true, nonceOK: true, realm: true, uname: true, known: true, macOK: true, user: u, nonceVal: nonce, pass: h2Users[u]}
+		}
+		ip := net.ParseIP("10.0.0.2").To4()
+		ask := func(c *h2Client, u string, typ stun.MessageType, attrs ...stun.Setter) *stun.Message {
+			h.tid++
+			c.sendRaw(h.build(typ, h.tid, cred(u), attrs...))
+			synctest.Wait()
+			fr, _ := c.takeFrames()
+			if len(fr) == 0 {
+				return nil
+			}
+			m := &stun.Message{Raw: fr[len(fr)-1]}
+			if m.Decode() != nil {
+				return nil
+			}
+
+			return m
+		}
+		ok := func(m *stun.Message) bool { return m != nil && m.Type.Class == stun.ClassSuccessResponse }
+		udp := proto.RequestedTransport{Protocol: proto.ProtoUDP}
+		c1 := w.client(0, ip, 4000)
+		if c1 == nil || !ok(ask(c1, "alice", stun.NewType(stun.MethodAllocate, stun.ClassRequest), udp)) ||
+			!ok(ask(c1, "alice", stun.NewType(stun.MethodRefresh, stun.ClassRequest), proto.Lifetime{})) {
+			vt.Alarm("h2-setup", "stale-stream-teardown: first connection")
+			w.shutdown()
+
+			return
+		}
+		// the old connection's last request keeps the server busy for 2 s (slow AuthHandler); the connection is closed meanwhile
+		w.authDelay.Store(int64(2 * time.Second))
+		h.tid++
+		c1.sendRaw(h.build(stun.NewType(stun.MethodRefresh, stun.ClassRequest), h.tid, cred("bob"), proto.Lifetime{Duration: time.Minute}))
+		synctest.Wait()
+		c1.close()
+		delete(w.clients, c1.key())
+		// the client is back from the same address and port
+		c2 := w.client(0, ip, 4000)
+		if c2 == nil || !ok(ask(c2, "alice", stun.NewType(stun.MethodAllocate, stun.ClassRequest), udp)) {
+			vt.Alarm("h2-setup", "stale-stream-teardown: Allocate over the new connection")
+			w.shutdown()
+
+			return
+		}
+		time.Sleep(3 * time.Second) // the old connection's goroutine finishes its request, finds its stream ended and tears down
+		synctest.Wait()
+		w.authDelay.Store(0)
+		if r := ask(c2, "alice", stun.NewType(stun.MethodRefresh, stun.ClassRequest), proto.Lifetime{Duration: 10 * time.Minute}); !ok(r) {
+			vt.Alarm("allocation-vanished-after-success", "a stream client came back from the same address and port and made a new allocation while the server was still busy "+
+				"with the last request of its old connection; the old connection's teardown then deleted the NEW allocation (Refresh over the new connection: %v, AllocationCount=%d)",
+				r, w.srv.AllocationCount())
+		}
+		w.shutdown()
+	})
+	vt.Flush()
+}
+
+// h2UnsignedAttributes (C03; monitor only): MESSAGE-INTEGRITY covers the message up to itself.  What an on-path party appends
+// BEHIND it is signed by nobody and must be ignored (RFC 5389 15.4) - here: a second XOR-PEER-ADDRESS behind the integrity of a
+// genuine CreatePermission must not install a permission for that second peer.
+func h2UnsignedAttributes(t *testing.T, vt *vhT) {
+	synctest.Test(t, func(t *testing.T) {
+		vt.Note("unsigned-attributes scenario")
+		lis := []*h2Listener{{ip: net.ParseIP("10.0.0.1").To4()}}
+		w := newH2World(vt, ServerConfig{}, lis, true, false)
+		h := &h2Hist{vt: vt, w: w, lastTid: map[string]int{}, owner: map[string]string{}}
+		nonce, _ := w.srv.nonceHash.Generate()
+		cr := &h2Cred{mi: true, nonce: true, nonceOK: true, realm: true, uname: true, known: true, macOK: true, user: "alice", nonceVal: nonce, pass: h2Users["alice"]}
+		a := w.client(0, net.ParseIP("10.0.0.2").To4(), 4000)
+		drain := func() []*stun.Message {
+			synctest.Wait()
+			var out []*stun.Message
+			for _, d := range a.pc.drain() {
+				m := &stun.Message{Raw: append([]byte{}, d.data...)}
+				if m.Decode() == nil {
+					out = append(out, m)
+				}
+			}
+
+			return out
+		}
+		h.tid++
+		a.sendRaw(h.build(stun.NewType(stun.MethodAllocate, stun.ClassRequest), h.tid, cr, proto.RequestedTransport{Protocol: proto.ProtoUDP}))
+		var relay *net.UDPAddr
+		for _, m := range drain() {
+			var ra proto.RelayedAddress
+			if m.Type.Class == stun.ClassSuccessResponse && ra.GetFrom(m) == nil {
+				relay = &net.UDPAddr{IP: ra.IP, Port: ra.Port}
+			}
+		}
+		if relay == nil {
+			vt.Alarm("h2-setup", "unsigned-attributes: Allocate")
+			w.shutdown()
+
+			return
+		}
+		signedPeer := proto.PeerAddress{IP: net.ParseIP("10.0.0.9").To4(), Port: 9000}
+		smuggled := proto.PeerAddress{IP: net.ParseIP("10.0.0.8").To4(), Port: 9000}
+		h.tid++
+		raw := h.build(stun.NewType(stun.MethodCreatePermission, stun.ClassRequest), h.tid, cr, signedPeer)
+		// the attribute an on-path party appends behind MESSAGE-INTEGRITY (same transaction id: the XOR uses it for IPv6 only)
+		signed := &stun.Message{Raw: append([]byte{}, raw...)}
+		_ = signed.Decode()
+		extra, _ := stun.Build(stun.NewTransactionIDSetter(signed.TransactionID), stun.NewType(stun.MethodCreatePermission, stun.ClassRequest), smuggled)
+		tlv := extra.Raw[20:]
+		forged := append(append([]byte{}, raw...), tlv...)
+		l := int(forged[2])<<8 | int(forged[3])
+		l += len(tlv)
+		forged[2], forged[3] = byte(l>>8), byte(l)
+		a.sendRaw(forged)
+		answered := false
+		for _, m := range drain() {
+			if m.Type.Method == stun.MethodCreatePermission && m.Type.Class == stun.ClassSuccessResponse {
+				answered = true
+			}
+		}
+		// the smuggled peer now sends to the relayed address
+		sock := w.peerUDPSock(smuggled.IP, smuggled.Port)
+		_, _ = sock.WriteTo([]byte("from the peer nobody signed for"), relay)
+		for _, m := range drain() {
+			if m.Type.Method == stun.MethodData {
+				vt.Alarm("unsigned-attribute-honoured", "an XOR-PEER-ADDRESS appended BEHIND the MESSAGE-INTEGRITY of a genuine CreatePermission (answered with success: %v) installed a "+
+					"permission: a datagram from that peer, for which the client never signed anything, is relayed to the client", answered)
+			}
+		}
+		w.shutdown()
+	})
+	vt.Flush()
+}
